@@ -2,6 +2,9 @@ import Reduino.Lang.Render
 import Reduino.Lang.InF
 import Reduino.Lemmas.C01a
 import Reduino.Lemmas.C01b
+import Reduino.Lemmas.C01c
+import Reduino.Lemmas.C01d
+import Reduino.Lemmas.C01e
 /- helper lemmas for Props/C01.lean (individual Mathlib modules may be imported here) -/
 namespace Reduino.Lemmas.C01
 end Reduino.Lemmas.C01
